@@ -84,6 +84,8 @@ M = [
   "    std::char::from_u32(n).ok_or_else(|| {\n        Error::new(\n            \"utf-8 encoding error\",\n            format!(\"number {} is not valid unicode\", n),\n        )\n    })", "    Ok(std::char::from_u32(n).unwrap())"),
  ("C13__main_handle_unwrap", "src/main.rs",
   "    io::handle(\n        &mut stderr,\n        sub_main(", "    let _ = &mut stderr;\n    Result::unwrap(\n        sub_main("),
+ ("C11__state_display_shows_three_stacks", "src/core/state.rs",
+  "        for (a, b) in v {\n            s.push_str(&*format!(\"stack {}: {:?}\\n\", a, b));", "        for (a, b) in v.into_iter().take(3) {\n            s.push_str(&*format!(\"stack {}: {:?}\\n\", a, b));"),
  ("C11__sigint_handler_exits_process", "src/app/debug.rs",
   "            r.store(false, Ordering::SeqCst);\n            let mut stdout = StandardStream::stdout(color);\n            write!(stdout, \"\\ntype \\\"exit\\\" to exit\\n\").unwrap();", "            r.store(false, Ordering::SeqCst);\n            std::process::exit(0);\n            #[allow(unreachable_code)]\n            let mut stdout = StandardStream::stdout(color);\n            write!(stdout, \"\\ntype \\\"exit\\\" to exit\\n\").unwrap();"),
  ("C01__bang_spins_on_nan", "src/core/area.rs",
